@@ -82,3 +82,62 @@ pub open spec fn sym_others_same(a: SymbolTable, b: SymbolTable) -> bool {
 }
 /// two tables hold the same contexts (all the vocabulary above depends on the table only through this)
 pub open spec fn sym_same(a: SymbolTable, b: SymbolTable) -> bool { a.contexts@ == b.contexts@ }
+
+// ---- lemmas over the view functions that more than one unit uses ---------------------------------------------
+pub proof fn lemma_last_pos_range(s: Seq<Seq<char>>, name: Seq<char>)
+    ensures last_pos(s, name) matches Some(j) ==> 0 <= j < s.len() && s[j] == name && forall|k: int| j < k < s.len() ==> s[k] != name,
+            last_pos(s, name) is None ==> forall|k: int| 0 <= k < s.len() ==> s[k] != name,
+    decreases s.len()
+{
+    if s.len() > 0 {
+        let t = s.drop_last();
+        lemma_last_pos_range(t, name);
+        assert forall|k: int| 0 <= k < t.len() implies t[k] == s[k] by {}
+        if s.last() != name {
+            if last_pos(t, name) is Some {
+                let j = last_pos(t, name)->Some_0;
+                assert forall|k: int| j < k < s.len() implies s[k] != name by { if k < t.len() { assert(t[k] != name); } }
+            } else {
+                assert forall|k: int| 0 <= k < s.len() implies s[k] != name by { if k < t.len() { assert(t[k] != name); } }
+            }
+        }
+    }
+}
+/// O09.L2  a later declaration of the same name in the same block takes over: right after declaring `name` it
+/// means the NEW slot (the number of names declared before it in the context)
+pub proof fn lemma_declare_takes_over(v: Scopes, name: Seq<char>)
+    requires v.len() >= 1
+    ensures slot_of(declare(v, name), name) == Some(flat_len(v) as int), flat_len(declare(v, name)) == flat_len(v) + 1
+{
+    let w = declare(v, name);
+    assert(w.drop_last() =~= v.drop_last());
+    assert(w.last() == v.last().push(name));
+    assert(v.last().push(name).last() == name);
+}
+
+/// O12.rec  a named function defined at top level can call itself: once `name` has been declared in the global
+/// context and a fresh function context has been opened, `name` resolves - through the global fallback - to exactly
+/// the symbol the declaration returned
+pub proof fn lemma_function_sees_itself(t0: SymbolTable, t1: SymbolTable, t2: SymbolTable, name: Seq<char>)
+    requires
+        sym_wf(t0), t0.contexts@.len() == 1,
+        // t1: after define(name) in t0
+        sym_others_same(t0, t1), ctx_after_define(t0.contexts@.last(), name, t1.contexts@.last()),
+        // t2: after new_context in t1
+        t2.contexts@.len() == t1.contexts@.len() + 1, t2.contexts@.drop_last() =~= t1.contexts@, ctx_is_new(t2.contexts@.last(), Scope::Local),
+    ensures sym_resolve(t2, name) == Some(sym_define_symbol(t0, name))
+{
+    let v0 = ctx_view(t0.contexts@.last());
+    let fresh = ctx_view(t2.contexts@.last());
+    assert(fresh.len() == 1 && fresh[0].len() == 0);
+    assert(fresh.last().len() == 0);
+    assert(last_pos(fresh.last(), name) is None);
+    assert(fresh.drop_last().len() == 0);
+    assert(slot_of(fresh.drop_last(), name) is None);
+    assert(slot_of(fresh, name) is None);
+    assert(ctx_resolve(t2.contexts@.last(), name) is None);
+    assert(t2.contexts@[0] == t1.contexts@[0]) by { assert(t2.contexts@.drop_last()[0] == t1.contexts@[0]); }
+    assert(t1.contexts@[0] == t1.contexts@.last());
+    lemma_declare_takes_over(v0, name);
+    assert(ctx_view(t1.contexts@[0]) == declare(v0, name));
+}
